@@ -4,7 +4,7 @@ import RF.Model.Project
 The parse-error bookkeeping that decides whether a file "parsed" (C05).
 
 `format_project` creates one `ParseSess` per crate root (src/parse/session.rs).  It holds rustc's `DiagCtxt`
-(whose error count is what `has_errors()` looks at), the emitter `SilentOnIgnoredFilesEmitter` with its private
+(whose error count and stash of not-yet-emitted diagnostics are what `has_errors()` looks at), the emitter `SilentOnIgnoredFilesEmitter` with its private
 flag `has_non_ignorable_parser_errors`, and the `AtomicBool` `can_reset` shared between the two.  Every
 diagnostic the rustc parser produces goes through `DiagCtxtInner::emit_diagnostic`: the emitter is called, then
 the error count grows if the level is an error level.  `Parser::parse_crate` (the root) and
@@ -37,6 +37,9 @@ inductive Loc where | noSpan | notLocal | localFile (ignored : Bool)
 structure Diag where
   level : Level
   loc : Loc
+  /-- the parser stashes it (`Diag::stash`: a `static` item without a type, an expression in pattern position, …)
+  instead of emitting it: it counts as an error at once but reaches the emitter only when the stash is emitted -/
+  stashed : Bool := false
   deriving DecidableEq, Repr
 
 /-- counted by `DiagCtxt` (`err_guars.push`) -/
@@ -52,14 +55,17 @@ structure Sess where
   canReset : Bool
   errCount : Nat
   shown : Nat
+  /-- `DiagCtxtInner::stashed_diagnostics` -/
+  stash : List Diag := []
   deriving DecidableEq, Repr
 
 /-- `ParseSess::new` -/
-def Sess.init : Sess := ⟨initHasNonIgn, initCanReset, 0, 0⟩
+def Sess.init : Sess := ⟨initHasNonIgn, initCanReset, 0, 0, []⟩
 
-def Sess.hasErrors (s : Sess) : Bool := s.errCount != 0
-/-- `reset_err_count` -/
-def Sess.reset (s : Sess) : Sess := { s with errCount := 0 }
+/-- `DiagCtxt::has_errors().is_some()`: emitted errors, or a stashed diagnostic that is an error -/
+def Sess.hasErrors (s : Sess) : Bool := s.errCount != 0 || s.stash.any Diag.isError
+/-- `reset_err_count`: the counts and the stash are dropped -/
+def Sess.reset (s : Sess) : Sess := { s with errCount := 0, stash := [] }
 
 /-- the two blocks of the emitter -/
 structure EmitProg where
@@ -84,13 +90,26 @@ def emitterStep (p : EmitProg) (s : Sess) (d : Diag) : Sess :=
   else runStmts p.handle s
 
 /-- `DiagCtxtInner::emit_diagnostic`: the emitter first, then the error count -/
-def dcxEmit (p : EmitProg) (s : Sess) (d : Diag) : Sess :=
+def dcxEmitNow (p : EmitProg) (s : Sess) (d : Diag) : Sess :=
   let s' := emitterStep p s d
   if d.isError then { s' with errCount := s'.errCount + 1 } else s'
+
+def emitNowAll (p : EmitProg) : Sess → List Diag → Sess
+  | s, [] => s
+  | s, d :: r => emitNowAll p (dcxEmitNow p s d) r
+
+/-- a diagnostic leaving the parser: `Diag::stash` puts it aside, `Diag::emit` sends it through -/
+def dcxEmit (p : EmitProg) (s : Sess) (d : Diag) : Sess :=
+  if d.stashed then { s with stash := s.stash ++ [d] } else dcxEmitNow p s d
 
 def emitAll (p : EmitProg) : Sess → List Diag → Sess
   | s, [] => s
   | s, d :: r => emitAll p (dcxEmit p s d) r
+
+/-- `DiagCtxtInner::emit_stashed_diagnostics`: the stash is taken and emitted in order; a stashed diagnostic
+that is not an error is dropped when errors have already been emitted -/
+def flushStash (p : EmitProg) (s : Sess) : Sess :=
+  emitNowAll p { s with stash := [] } (s.stash.filter fun d => d.isError || s.errCount == 0)
 
 /-! ### the decisions of parser.rs -/
 
@@ -109,17 +128,25 @@ structure FileParse where
 
 structure ParseProg where
   emit : EmitProg
+  /-- `ParseSess::has_errors` emits the stash before it looks -/
+  flush : Bool
   modErr : List PStmt
   fileArms : List Arm
   crateArms : List Arm
   inner : List InnerArm
 
-def guardHolds (g : Guard) (s : Sess) (pathExists : Bool) : Bool :=
+/-- `ParseSess::has_errors()`, with its effect on the session -/
+def hasErrorsCall (pp : ParseProg) (s : Sess) : Bool × Sess :=
+  let s' := if pp.flush then flushStash pp.emit s else s
+  (s'.hasErrors, s')
+
+/-- a guard and what evaluating it does to the session -/
+def evalGuard (pp : ParseProg) (g : Guard) (s : Sess) (pathExists : Bool) : Bool × Sess :=
   match g with
-  | .always => true
-  | .noErrors => !s.hasErrors
-  | .canReset => s.canReset
-  | .pathExists => pathExists
+  | .always => (true, s)
+  | .noErrors => let r := hasErrorsCall pp s; (!r.1, r.2)
+  | .canReset => (s.canReset, s)
+  | .pathExists => (pathExists, s)
 
 def runPStmt (p : EmitProg) (e : Option Diag) : PStmt → Sess → Sess
   | .emitErr, s => match e with | some d => dcxEmit p s d | none => s
@@ -143,20 +170,23 @@ def patMatches : Pat → Val → Bool
   | .unwound, .unwound => true
   | _, _ => false
 
-/-- first arm whose pattern and guard hold; `none`: no arm (the `match` would not compile) -/
-def selectArm (p : EmitProg) : List Arm → Val → Sess → Bool → Sess × Option Ret
+/-- first arm whose pattern and guard hold (a guard is only evaluated when the pattern matches); `none`: no
+arm (the `match` would not compile) -/
+def selectArm (pp : ParseProg) : List Arm → Val → Sess → Bool → Sess × Option Ret
   | [], _, s, _ => (s, none)
   | a :: r, v, s, pe =>
-    if patMatches a.pat v && guardHolds a.guard s pe then (runPStmts p none a.body s, some a.ret)
-    else selectArm p r v s pe
+    if patMatches a.pat v then
+      let g := evalGuard pp a.guard s pe
+      if g.1 then (runPStmts pp.emit none a.body g.2, some a.ret) else selectArm pp r v g.2 pe
+    else selectArm pp r v s pe
 
 /-- `Parser::parse_file_as_module` -/
 def parseFile (pp : ParseProg) (s : Sess) (fp : FileParse) : Sess × Option Ret :=
   let s1 := emitAll pp.emit s fp.diags
   match fp.raw with
-  | .ok => selectArm pp.emit pp.fileArms .okSome s1 fp.pathExists
-  | .err e => selectArm pp.emit pp.fileArms .okNone (runPStmts pp.emit (some e) pp.modErr s1) fp.pathExists
-  | .unwound => selectArm pp.emit pp.fileArms .unwound s1 fp.pathExists
+  | .ok => selectArm pp pp.fileArms .okSome s1 fp.pathExists
+  | .err e => selectArm pp pp.fileArms .okNone (runPStmts pp.emit (some e) pp.modErr s1) fp.pathExists
+  | .unwound => selectArm pp pp.fileArms .unwound s1 fp.pathExists
 
 def innerFail (pp : ParseProg) (stage : Stage) (pat : Pat) (e : Option Diag) (s : Sess) : Sess × Option Ret :=
   match pp.inner.find? (fun a => a.stage == stage && a.pat == pat) with
@@ -168,13 +198,13 @@ def innerFail (pp : ParseProg) (stage : Stage) (pat : Pat) (e : Option Diag) (s 
 def parseCrate (pp : ParseProg) (s : Sess) (fp : FileParse) : Sess × Option Ret :=
   let s1 := emitAll pp.emit s fp.diags
   match fp.raw with
-  | .ok => selectArm pp.emit pp.crateArms .okSome s1 true
+  | .ok => selectArm pp pp.crateArms .okSome s1 true
   | .err e => innerFail pp fp.stage .okErr (some e) s1
   | .unwound => innerFail pp fp.stage .unwound none s1
 
 /-- the tables of the current source -/
 def genEmit : EmitProg := ⟨handleNonIgnorable, ignoredFileBranch⟩
-def genParse : ParseProg := ⟨genEmit, modErrArm, fileArms, crateArms, innerArms⟩
+def genParse : ParseProg := ⟨genEmit, hasErrorsEmitsStashed, modErrArm, fileArms, crateArms, innerArms⟩
 
 /-- every diagnostic of the call, the pending one included -/
 def FileParse.allDiags (fp : FileParse) : List Diag :=
@@ -182,7 +212,7 @@ def FileParse.allDiags (fp : FileParse) : List Diag :=
   | .err e => fp.diags ++ [e]
   | _ => fp.diags
 
-/-- a diagnostic that is counted as an error and is not dropped by the emitter -/
+/-- a diagnostic that is counted as an error and is not dropped by the emitter (stashed or not) -/
 def Diag.hardError (d : Diag) : Bool := d.isError && !d.ignorable
 
 /-- **fault of a file**: the parser's call does not end in `Ok`, or it reports an error that is fatal or lies
